@@ -114,6 +114,9 @@ MUTANTS = [
     dict(id="C10-close-keeps-target-connected", prop="C10", file=C,
          old="        self._sock = None\n        self._target_is_connected = False\n        self._session = 0",
          new="        self._sock = None\n        self._session = 0"),
+    dict(id="C10-vsn-not-redrawn", prop="C10", file=C,
+         old="            self._cfg[\"cid\"] = urandom(4)\n            self._cfg[\"vsn\"] = urandom(4)\n",
+         new="            self._cfg[\"cid\"] = urandom(4)\n"),
     # ---- C11 ----
     dict(id="C11-header-length-plus1", prop="C11", file=PB,
          old="            self._encap_command, len(common), session_id, context, option",
